@@ -53,6 +53,60 @@ def atoms(conds):
     return out
 
 
+def _run_concrete(stmts, env):
+    """Execute straight-line code with loops over range(<concrete>) on rational-function values; returns the value
+    returned.  sum(<generator over range>) is unfolded."""
+    env = dict(env)
+
+    def call_hook(ev, name, node):
+        if name == "sum" and len(node.args) == 1 and isinstance(node.args[0], (ast.GeneratorExp, ast.ListComp)) \
+                and len(node.args[0].generators) == 1 and not node.args[0].generators[0].ifs:
+            g = node.args[0].generators[0]
+            if isinstance(g.iter, ast.Call) and unparse(g.iter.func) in ("xrange", "range") and isinstance(g.target, ast.Name):
+                bounds = [ev.ev(a).as_int() for a in g.iter.args]
+                tot = RF.const(0)
+                for i in range(*bounds):
+                    saved = ev.env
+                    ev.env = dict(ev.env)
+                    ev.env[g.target.id] = RF.const(i)
+                    try:
+                        tot = tot + ev.ev(node.args[0].elt)
+                    finally:
+                        ev.env = saved
+                return tot
+        return None
+
+    def run(block):
+        for st in block:
+            if isinstance(st, ast.Assign) and len(st.targets) == 1 and isinstance(st.targets[0], ast.Name):
+                env[st.targets[0].id] = Evaluator(env, call_hook=call_hook).ev(st.value)
+            elif isinstance(st, ast.AugAssign) and isinstance(st.target, ast.Name):
+                v = Evaluator(env, call_hook=call_hook).ev(st.value)
+                cur = env[st.target.id]
+                env[st.target.id] = {ast.Add: cur + v, ast.Sub: cur - v, ast.Mult: cur * v}.get(type(st.op))
+                if env[st.target.id] is None:
+                    raise Inconclusive("augmented %s" % unparse(st))
+            elif isinstance(st, ast.For) and isinstance(st.target, ast.Name) and isinstance(st.iter, ast.Call) \
+                    and unparse(st.iter.func) in ("xrange", "range") and not st.orelse:
+                bounds = [Evaluator(env).ev(a).as_int() for a in st.iter.args]
+                for i in range(*bounds):
+                    env[st.target.id] = RF.const(i)
+                    r = run(st.body)
+                    if r is not None:
+                        return r
+            elif isinstance(st, ast.Return):
+                return Evaluator(env, call_hook=call_hook).ev(st.value)
+            elif isinstance(st, ast.Expr) and isinstance(st.value, ast.Constant):
+                continue
+            else:
+                raise Inconclusive("statement %s" % unparse(st)[:60])
+        return None
+    r = run(stmts)
+    if r is None:
+        raise Inconclusive("no value returned")
+    return r
+
+
 def run(chk, repo):
     amod, imod = repo.mod(LA), repo.mod(LI)
     WA = lambda q: "%s:%s" % (amod.relpath, q)
@@ -471,17 +525,7 @@ def run(chk, repo):
     for size in range(1, 17):
         try:
             rv = Evaluator({"z": RF.sym("x") ** -1, "size": RF.const(size)}).ev(rret.value)
-            gen = fret.value
-            okshape = isinstance(gen, ast.Call) and unparse(gen.func) == "sum" and isinstance(gen.args[0], ast.GeneratorExp)
-            chk.require(okshape, "maverage.fir is not a sum over a generator expression")
-            ge = gen.args[0]
-            rng = ge.generators[0].iter
-            chk.require(isinstance(rng, ast.Call) and unparse(rng.func) in ("xrange", "range"), "maverage.fir range")
-            bounds = [Evaluator({"size": RF.const(size)}).ev(a).as_int() for a in rng.args]
-            fv = RF.const(0)
-            for i in range(*bounds):
-                fv = fv + Evaluator({"z": RF.sym("x") ** -1, "size": RF.const(size),
-                                     unparse(ge.generators[0].target): RF.const(i)}).ev(ge.elt)
+            fv = _run_concrete(docstring_free(fir.body), {"z": RF.sym("x") ** -1, "size": RF.const(size)})
         except Inconclusive as ex:
             raise AnalysisError("maverage.recursive/fir not interpretable: %s" % ex)
         want = sum((x ** i for i in range(size)), RF.const(0)) / size
